@@ -103,6 +103,31 @@ def replay_streams(pid, v):
     return mism[0] if mism else None
 
 
+def replay_under(ctx, tags, extra_args=None):
+    """replay the behaviours of this run under other feature configurations of rrtk as well"""
+    import p_config
+    allb = os.path.join(ctx.out, "behaviours.ndjson")
+    cpath = os.path.join(ctx.out, "concs.json")
+    for tag in tags:
+        feats, dimcheck, powmode = p_config.CONFIGS[tag]
+        bindir = build_harness(["streams"], feats, tag)
+        args = ["replay", allb, cpath] + (["--skip-ewma-values"] if powmode == "approx" else [])
+        mism, summary, _ = run_bin(bindir, "streams", args, timeout=3000)
+        ctx.evaluations += summary.get("replays", 0)
+        ctx.extra["replay_summary_" + tag] = summary
+        seen = set()
+        for m in mism:
+            key = (m["kind"], m["line"])
+            if key in seen:
+                continue
+            seen.add(key)
+            beh = json.loads(vlib.nth_line(allb, m["line"]))
+            ctx.violation("%s:%s:%s" % (m["kind"], m["what"], tag), {"replay_kind": "streams", "behaviour": beh, "conc": m["conc"], "mismatch": m,
+                                                                   "features": feats, "tag": tag},
+                          "[%s build] %s behaviour #%d step %d: %s; expected %s, implementation gave %s" % (
+                              tag, m["kind"], m["line"], m["step"], m["what"], json.dumps(m["exp"]), json.dumps(m["got"])))
+
+
 def stream_traces(ctx, kinds, n):
     """impl -> spec: random histories on arbitrary floats recorded from the real streams (with real twins), validated by TLC"""
     from p_pure import trace_check
@@ -175,6 +200,7 @@ def c11(ctx):
     p = (dict(exh_narrow=0, exh_wide=4, sim_num=600, sim_depth=14, rich=False, n_random_concs=2) if ctx.tier == "quick" else
          dict(exh_narrow=0, exh_wide=5, sim_num=500, sim_depth=48, rich=False, n_random_concs=4))
     mism, summary, total = run_streams(ctx, ["CmdPID", "CmdPIDF"], **p)
+    replay_under(ctx, ["std_nocheck"])      # command equality must not depend on dimension checking
     stream_traces(ctx, ["CmdPID"], 300 if ctx.tier == "quick" else 5000)
     finish_streams(ctx, summary, total,
                    "Events: present state sample, absent, two error identities, set(command) with same / other kind / other "
@@ -190,6 +216,7 @@ def c12(ctx):
          dict(exh_narrow=0, exh_wide=4, sim_num=500, sim_depth=64, rich=True, n_random_concs=4))
     mism, summary, total = run_streams(ctx, kinds, **p)
     stream_traces(ctx, kinds, 400 if ctx.tier == "quick" else 6000)
+    replay_under(ctx, ["libm_check", "micromath_check"])      # the EWMA's power function comes from the float back end
     finish_streams(ctx, summary, total,
                    "Timestamps are non-decreasing (dt 0 = repeated timestamp); windows shorter than a step, equal to it and "
                    "longer than the history; every f32-variant behaviour is also run on the Quantity variant and compared bit "
